@@ -35,7 +35,12 @@ RULE = ('histories of 1..14 events over 4 node ids: received vectors (newer/olde
         'publications and timer expiries; a targeted stream: the own node id repeated in one vector (over-claiming first / '
         'last / in the middle), sequence numbers up to 2^64-1, stop/start cycles, a vector or a publication arriving at the '
         'instant the timer is due, over-claiming vectors inside a suppression period; non-trivial = the history contains at least one accepted vector that '
-        'raises an entry or an emission decision taken in suppression; distinct = distinct event lists')
+        'raises an entry or an emission decision taken in suppression; distinct = distinct event lists; a constructor stream: '
+        'every constructor argument varied (last_used_seq_num 0 / 1 / 41 / around 2^32 / 2^64-4 / 2^64-2 / -1, sync and suppression '
+        'intervals, base prefix and node id as URI / component list / encoded bytes / alternate URI spelling, typed components, '
+        'the root name as node id for publications only), publications BEFORE start(), between stop() and start() and '
+        'immediately after start(), separate stop / start events, express_sync_interest() called by the application, a twin '
+        'instance used before this one is built')
 
 BASE = '/sync'
 NODES = ['/n0', '/n1', '/n2', '/n3']
@@ -54,12 +59,12 @@ def extract(repo):
 
 
 # ------------------------------------------------------------------------------------- cases
-def _vector(rng, seqs_hint):
+def _vector(rng, seqs_hint, nodes=None):
     k = rng.choice([1, 1, 2, 2, 3, 4])
     es = []
     for _ in range(k):
         r = rng.random()
-        nid = rng.choice(NODES)
+        nid = rng.choice(nodes or NODES)
         base = seqs_hint.get(nid, 0)
         seq = min(2**64 - 1, max(0, base + rng.choice([-2, -1, 0, 0, 1, 1, 2, 5])))
         if rng.random() < 0.04:
@@ -120,8 +125,121 @@ def _targeted():
                 yield {'seq0': seq0, 'events': [first, ['t'], ['r', [[a, 1]]], at, ['t'], ['r', [[b, 1]]], at, ['t']]}
 
 
+# constructor arguments: (canonical URI of the node id, what is handed to the constructor)
+ME_FORMS = [['/n0', {'str': '/n0'}], ['/n0', {'str': '/8=n0'}], ['/n0', {'list': ['n0']}], ['/n0', {'bytes': '/n0'}],
+            ['/n0', {'str': '/%6E0'}], ['/alice/seg=3/v=1', {'str': '/alice/seg=3/v=1'}],
+            ['/alice/seg=3/v=1', {'str': '/alice/50=%03/54=%01'}], ['/32=kw/%00/n', {'bytes': '/32=kw/%00/n'}],
+            ['/a/b/c/d', {'list': ['a', 'b', 'c', 'd']}]]
+BASE_FORMS = [{'str': '/sync'}, {'str': '/'}, {'list': ['ndn', 'svs', '32=group']}, {'str': '/ndn/svs/v=2/32=sync'},
+              {'bytes': '/grp/sync'}, {'str': '/8=sync'}]
+INTERVALS = [None, [30, 0.2], [1.0, 0.05], [600, 5.0], [0.5, 0.4], [2, 3.0]]
+RESUMED = [0, 1, 41, 2**32 - 1, 2**32, 2**63, 2**64 - 4]
+
+
+def _ctor(i):
+    me, arg = ME_FORMS[i % len(ME_FORMS)]
+    c = {'me': me, 'me_arg': arg, 'base_arg': BASE_FORMS[(i // 2) % len(BASE_FORMS)],
+         'intervals': INTERVALS[(i // 3) % len(INTERVALS)]}
+    if i % 4 == 1:
+        c['twin'] = True
+    return c
+
+
+def _resumed():
+    """a RESUMED node (last_used_seq_num != 0) and the other constructor arguments; publications before start(),
+    between stop() and start(), immediately after start(); separate stop / start; express_sync_interest() by hand"""
+    i = 0
+    for seq0 in RESUMED:
+        for ci in range(3):
+            c = _ctor(i)
+            i += 1
+            me = c['me']
+            a, b = NODES[1], NODES[2]
+            pats = [
+                # publish, then start: the vector handed out claims seq0+1, which a peer echoes back
+                (True, [['p'], ['start'], ['r', [[me, seq0 + 1], [a, 3]]], ['t'], ['r', [[me, seq0 + 2], [a, 9]]], ['p'], ['t']]),
+                (True, [['p'], ['p'], ['start'], ['t'], ['r', [[a, 2]]], ['r', [[me, seq0 + 2], [b, 1]]], ['t']]),
+                (True, [['start'], ['p'], ['r', [[me, seq0 + 1], [a, 3]]], ['t'], ['x'], ['t']]),
+                (True, [['stop'], ['p'], ['stop'], ['start'], ['r', [[me, seq0], [a, 1]]], ['r', [[me, seq0 + 1], [b, 2]]], ['t']]),
+                (False, [['p'], ['stop'], ['p'], ['start'], ['r', [[me, seq0 + 2], [b, 4]]], ['t'], ['stop'], ['start'], ['p']]),
+                (False, [['r', [[me, seq0], [a, 5]]], ['stop'], ['p'], ['x'], ['start'], ['r', [[a, 1]]], ['t'], ['r', [[me, seq0 + 1]]]]),
+                (False, [['r', [[a, 5]]], ['t'], ['r', [[a, 1]]], ['stop'], ['p'], ['start'], ['t'], ['r', [[me, seq0 + 1], [a, 6]]]]),
+            ]
+            for late, evs in pats[ci::3] + ([pats[0]] if ci else []):
+                d = dict(c)
+                d.update({'seq0': seq0, 'events': evs})
+                if late:
+                    d['late_start'] = True
+                yield d
+    # the last number an 8-byte integer can carry
+    top = 2**64 - 2
+    yield {'seq0': top, 'late_start': True, 'events': [['p'], ['start'], ['r', [[NODES[0], top + 1], [NODES[1], 1]]], ['t']]}
+    yield {'seq0': top, 'events': [['r', [[NODES[0], top + 1], [NODES[1], 1]]], ['stop'], ['p'], ['start'], ['r', [[NODES[0], top + 1], [NODES[1], 1]]], ['t']]}
+    # last_used_seq_num = -1 (start() leaves the own entry out; the first publication is number 0): publications and
+    # vectors about OTHER nodes only
+    a = NODES[1]
+    yield {'seq0': -1, 'events': [['p'], ['t'], ['r', [[a, 2]]], ['p'], ['t']]}
+    yield {'seq0': -1, 'late_start': True, 'events': [['p'], ['start'], ['r', [[a, 2]]], ['t'], ['p']]}
+    # the root name as node id: publications and timers only (an entry with an empty name does not name a node on the
+    # wire, so received vectors cannot mention it: see report)
+    for seq0 in (0, 41):
+        yield {'seq0': seq0, 'me': '/', 'me_arg': {'str': '/'}, 'late_start': True,
+               'events': [['p'], ['start'], ['r', [[a, 2]]], ['t'], ['p'], ['r', [[a, 1]]], ['t']]}
+
+
+def _ctor_random(rng, n):
+    for _ in range(n):
+        c = _ctor(rng.randrange(10000))
+        me = c['me']
+        nodes = [me] + NODES[1:]
+        seq0 = rng.choice([0, 1, 3, 41, 41, 2**32 - 1, 10**12])
+        c['seq0'] = seq0
+        running = rng.random() < 0.5
+        if not running:
+            c['late_start'] = True
+        started = running
+        hint = {me: seq0}
+        evs = []
+        for _ in range(rng.randint(2, 12)):
+            r = rng.random()
+            if not running:
+                if r < 0.5:
+                    evs.append(['p'])
+                    hint[me] += 1
+                elif r < 0.6:
+                    evs.append(['stop'])
+                elif r < 0.65 and started:
+                    evs.append(['x'])
+                else:
+                    evs.append(['start'])
+                    running = started = True
+                continue
+            if r < 0.45:
+                v = _vector(rng, hint, nodes)
+                if rng.random() < 0.3:
+                    v.append([me, min(2**64 - 1, hint[me] + rng.choice([0, 0, 1]))])     # echo of the own entry / over-claim by one
+                    rng.shuffle(v)
+                evs.append(['r', v])
+            elif r < 0.62:
+                evs.append(['p'])
+                hint[me] += 1
+            elif r < 0.80:
+                evs.append(['t'])
+            elif r < 0.90:
+                evs.append(['stop'])
+                running = False
+            elif r < 0.94:
+                evs.append(['x'])
+            else:
+                evs.append(['ss'])
+        c['events'] = evs
+        yield c
+
+
 def cases(rng, tier):
     yield from _targeted()
+    yield from _resumed()
+    yield from _ctor_random(rng, 150 if tier == 'quick' else 4000)
     if tier == 'thorough':
         # exhaustive small scope first (7 + 49 + 343 + 2401 + 16807 histories), then the random stream
         yield from _exhaustive(5)
@@ -183,28 +301,44 @@ def _byte_cases(rng, n):
 
 def shrink(case):
     evs = case['events']
+
+    def mk(events, **kw):
+        d = dict(case)
+        d['events'] = events
+        d.update(kw)
+        return d
     for i in range(len(evs)):
-        yield {'seq0': case['seq0'], 'events': evs[:i] + evs[i + 1:]}
+        yield mk(evs[:i] + evs[i + 1:])
     for i, e in enumerate(evs):
         if e[0] in ('r', 'r@') and len(e[1]) > 1:
             for j in range(len(e[1])):
-                yield {'seq0': case['seq0'], 'events': evs[:i] + [[e[0], e[1][:j] + e[1][j + 1:]]] + evs[i + 1:]}
+                yield mk(evs[:i] + [[e[0], e[1][:j] + e[1][j + 1:]]] + evs[i + 1:])
         if e[0] in ('r@', 'p@'):
-            yield {'seq0': case['seq0'], 'events': evs[:i] + [[e[0][0]] + e[1:]] + evs[i + 1:]}
-    if case['seq0'] > 0:
-        yield {'seq0': 0, 'events': evs}
+            yield mk(evs[:i] + [[e[0][0]] + e[1:]] + evs[i + 1:])
+    for k in ('twin', 'intervals', 'base_arg'):
+        if case.get(k):
+            d = dict(case)
+            del d[k]
+            yield d
+    if case.get('me_arg') and case['me_arg'] != {'str': case.get('me')}:
+        yield mk(evs, me_arg={'str': case['me']})
+    if case['seq0'] > 0 and not any(k in case for k in ('me', 'late_start')):
+        yield mk(evs, seq0=0)
 
 
 # -------------------------------------------------------------------------------- implementation
 class _FakeApp:
     def __init__(self):
         self.sent = []
+        self.handlers = {}
 
-    def attach_handler(self, *a, **k):
-        pass
+    def attach_handler(self, prefix, handler, validator=None, *a, **k):
+        from ndn import encoding as enc
+        self.handlers[bytes(enc.Name.to_bytes(prefix))] = handler
 
-    def detach_handler(self, *a, **k):
-        pass
+    def detach_handler(self, prefix, *a, **k):
+        from ndn import encoding as enc
+        self.handlers.pop(bytes(enc.Name.to_bytes(prefix)), None)
 
     def express(self, name, validator, **kw):
         self.sent.append(name)
@@ -212,6 +346,22 @@ class _FakeApp:
 
 def _canon_vec(d):
     return sorted([k.hex(), v] for k, v in d.items())
+
+
+def _name_arg(enc, arg):
+    """the value handed to the constructor for a name: URI string, list of component strings, or encoded bytes"""
+    if 'str' in arg:
+        return arg['str']
+    if 'list' in arg:
+        return list(arg['list'])
+    return bytes(enc.Name.to_bytes(arg['bytes']))
+
+
+def _base_uri(case):
+    a = case.get('base_arg')
+    if not a:
+        return BASE
+    return a.get('str') or a.get('bytes') or '/' + '/'.join(a['list'])
 
 
 def run_impl(case):
@@ -230,19 +380,48 @@ def run_impl(case):
     try:
         missing = []
         app = _FakeApp()
-        inst = svs_sync.SvsInst(BASE, NODES[0], lambda i: missing.append(1), None, None,
-                                last_used_seq_num=case['seq0'])
-        loop.call_now(inst.start, app)
+        me_uri = case.get('me', NODES[0])
+        base_uri = _base_uri(case)
+        base = enc.Name.normalize(base_uri)
+        base_key = bytes(enc.Name.to_bytes(base_uri))
+        self_id = enc.Name.to_bytes(me_uri)
+        if case.get('twin'):
+            # another instance of the class, used and stopped before this one is built: nothing of it may show here
+            tapp = _FakeApp()
+            twin = svs_sync.SvsInst(base_uri, '/twin', lambda i: None, None, None, last_used_seq_num=7)
+            twin.new_data()
+            loop.call_now(twin.start, tapp)
+            h = tapp.handlers.get(base_key)
+            if h is not None:
+                pkt = StateVecWrapper()
+                pkt.val = StateVec()
+                e = StateVecEntry()
+                e.node_id, e.seq_no = '/n3', 99
+                pkt.val.entries = [e]
+                loop.call_now(h, base + [bytes(pkt.encode()), enc.Component.from_bytes(b'\x00' * 32, 2)], None, None, None)
+            loop.call_now(twin.new_data)
+            loop.call_now(twin.stop)
+        kw = {}
+        if case.get('intervals'):
+            kw = {'sync_interval': case['intervals'][0], 'suppression_interval': case['intervals'][1]}
+        inst = svs_sync.SvsInst(_name_arg(enc, case['base_arg']) if case.get('base_arg') else BASE,
+                                _name_arg(enc, case['me_arg']) if case.get('me_arg') else me_uri,
+                                lambda i: missing.append(1), None, None,
+                                last_used_seq_num=case['seq0'], **kw)
+        running = False
+        initial = {'local': _canon_vec(inst.local_sv), 'self_seq': inst.self_seq}
+        if not case.get('late_start'):
+            loop.call_now(inst.start, app)
+            running = True
+            initial['local_started'] = _canon_vec(inst.local_sv)
         app.sent.clear()
-        base = enc.Name.normalize(BASE)
-        self_id = enc.Name.to_bytes(NODES[0])
         trace = []
 
         def _begin(kind):
             missing.clear()
             app.sent.clear()
             return {'ev': kind, 'state_before': inst.state.name, 'self_seq_before': inst.self_seq,
-                    'local_before': _canon_vec(inst.local_sv)}
+                    'local_before': _canon_vec(inst.local_sv), 'running': running}
 
         def _finish(rec, exc):
             rec['raised'] = exc
@@ -250,7 +429,10 @@ def run_impl(case):
             emitted = []
             for nm in app.sent:
                 v = StateVecWrapper.parse(nm[-1]).val
-                emitted.append(sorted([bytes(enc.Name.to_bytes(e.node_id)).hex(), e.seq_no] for e in (v.entries if v else [])))
+                emitted.append(sorted([bytes(enc.Name.to_bytes(e.node_id or [])).hex(), e.seq_no]
+                                      for e in (v.entries if v else [])))
+                if bytes(enc.Name.to_bytes(list(nm[:-1]))) != base_key:
+                    rec['emit_off_prefix'] = True
             rec['emitted'] = emitted
             rec['local'] = _canon_vec(inst.local_sv)
             rec['state'] = inst.state.name
@@ -261,6 +443,14 @@ def run_impl(case):
             # 'r@' / 'p@': the vector / publication arrives at the very instant the timer is due (clock moved without
             # letting the timer task run; the handler is called directly, then the loop settles)
             kind, exact = ev[0].rstrip('@'), ev[0].endswith('@')
+            if not running:
+                # an instance that is not running has no handler attached and no timer: received vectors and timer
+                # expiries are not events of its history; start() on a running instance raises by contract
+                if kind not in ('p', 'start', 'stop', 'x') or (kind == 'x' and inst.ndn_app is None):
+                    continue
+                exact = False
+            elif kind == 'start':
+                continue
             rec = _begin(kind)
             exc = None
             if exact:
@@ -294,11 +484,16 @@ def run_impl(case):
                     rec['comp'] = bytes(comp).hex()
                     rec['lib_view'], dec = c18_bytes.lib_view(bytes(comp), StateVecWrapper, enc.Name)
                 rec['decoded'] = dec
+                # the Interest goes to whatever start() attached under the sync prefix
+                handler = app.handlers.get(base_key)
+                if handler is None:
+                    rec['no_handler'] = True
+                    handler = lambda *a: None       # noqa
                 try:
                     if exact:
-                        inst.sync_handler(name, None, None, None)
+                        handler(name, None, None, None)
                     else:
-                        loop.call_now(inst.sync_handler, name, None, None, None)
+                        loop.call_now(handler, name, None, None, None)
                 except Exception as e:           # noqa
                     exc = c18_bytes.exc_name(e)
                 if exact:
@@ -323,20 +518,52 @@ def run_impl(case):
                 # stop, let the timer task finish, start again (stop immediately followed by start is kept out: see report)
                 loop.call_now(inst.stop)
                 loop.call_now(inst.start, app)
+            elif kind == 'stop':
+                loop.call_now(inst.stop)
+                running = False
+            elif kind == 'start':
+                loop.call_now(inst.start, app)
+                running = True
+            elif kind == 'x':
+                loop.call_now(inst.express_sync_interest)
             _finish(rec, exc)
         inst.stop()
-        return {'self_id': bytes(self_id).hex(), 'trace': trace, 'loop_errors': loop.errors}
+        return {'self_id': bytes(self_id).hex(), 'trace': trace, 'loop_errors': loop.errors, 'initial': initial}
     finally:
         svs_sync.time, svs_sync.secrets = old
         loop.shutdown()
 
 
 # ------------------------------------------------------------------------------------- model
-def model_line(case, impl):
-    toks = []
+_NOT_MODEL = ('ss', 'stop', 'start', 'x')
+
+
+def _model_recs(impl):
+    """the records that are events of the model.  A restart, stop(), start() and a sync Interest sent by hand are not:
+    they must change nothing the model can see.  The model starts in the state right after the first start(): the
+    publications made before it are folded into its initial sequence number."""
+    started = not impl['trace'] or impl['trace'][0].get('running', True)
+    out, pre = [], 0
     for rec in impl['trace']:
-        if rec['ev'] == 'ss':
-            continue            # a restart is not an event of the model: it must change nothing the model can see
+        if rec['ev'] == 'start':
+            started = True
+        if rec['ev'] in _NOT_MODEL:
+            continue
+        if not started:
+            pre += 1
+            continue
+        out.append(rec)
+    return out, pre
+
+
+def model_line(case, impl):
+    if case['seq0'] < 0:
+        return None             # the model's sequence numbers are naturals: oracle only
+    recs, pre = _model_recs(impl)
+    if not any(r['ev'] == 'start' or r.get('running', True) for r in impl['trace']) and impl['trace']:
+        return None             # never started
+    toks = []
+    for rec in recs:
         if rec['ev'] in ('r', 'raw', 'badlen', 'comp'):
             if rec.get('comp') is not None:
                 # the real encoded component; `=<lib>` lets the driver compare its own decoder with the library's
@@ -345,7 +572,7 @@ def model_line(case, impl):
                 toks.append('u')
         else:
             toks.append(rec['ev'])
-    return f"C18 {impl['self_id']} {case['seq0']} {';'.join(toks) if toks else '.'}"
+    return f"C18 {impl['self_id']} {case['seq0'] + pre} {';'.join(toks) if toks else '.'}"
 
 
 def _pvec(s):
@@ -370,14 +597,17 @@ def model_obs(answer, case, impl):
         # inside the component is not part of the property: compared as sorted vectors)
         from props import c18_bytes
         out.append([o, _pvec(loc), [c18_bytes.read_back(h) for h in em.split(',')] if em else []])
+    # a publication while the instance is not running cannot be announced before start(): the model's emission for it
+    # is the one the oracle demands of the following start()
+    for k, rec in enumerate(_model_recs(impl)[0]):
+        if rec['ev'] == 'p' and not rec.get('running', True) and k < len(out):
+            out[k] = [[], out[k][1], []]
     return out
 
 
 def impl_obs(impl):
     out = []
-    for rec in impl['trace']:
-        if rec['ev'] == 'ss':
-            continue
+    for rec in _model_recs(impl)[0]:
         o = ['M'] * rec['missing'] + [['E', v] for v in rec['emitted']]
         if rec.get('raised') and rec.get('comp') is not None:
             o = [['X', rec['raised']]] + o      # the handler raised: the model names the class that propagates
@@ -403,9 +633,22 @@ def oracle(case, impl):
     """the property statement, evaluated on the implementation's observable behaviour"""
     self_id = impl['self_id']
     heard = None
+    ini = impl.get('initial')
+    if ini is not None:
+        # nothing was received and nothing published yet: the vector holds nothing but the own (resumed) number
+        if ini['self_seq'] != case['seq0']:
+            return 'a new instance does not resume at the given last used sequence number'
+        for loc in (ini['local'], ini.get('local_started', [])):
+            if any(q != (case['seq0'] if i == self_id else 0) for i, q in loc):
+                return 'a new instance starts with a local vector that is not its own sequence number alone'
+    unannounced = False
     for k, rec in enumerate(impl['trace']):
         before = dict((a, b) for a, b in rec['local_before'])
         after = dict((a, b) for a, b in rec['local'])
+        if rec.get('emit_off_prefix'):
+            return f'event {k}: a sync Interest was emitted under a name that is not sync prefix + vector'
+        if rec.get('no_handler'):
+            return f'event {k}: a running instance has no handler attached under its sync prefix'
         for i, q in before.items():
             if after.get(i, 0) < q:
                 return f'event {k}: local vector decreased at {i}'
@@ -451,8 +694,39 @@ def oracle(case, impl):
                 return f'event {k}: publish did not increase the sequence number by one'
             if after.get(self_id) != rec['self_seq']:
                 return f'event {k}: local vector does not carry the new sequence number'
-            if rec['emitted'] != [rec['local']]:
-                return f'event {k}: publish did not promptly emit exactly one sync Interest with the full vector'
+            if any(after.get(i, 0) != q for i, q in before.items() if i != self_id) or \
+                    any(i not in before and i != self_id and q != 0 for i, q in after.items()):
+                return f'event {k}: publish changed the entry of another node'
+            if rec.get('running', True):
+                if rec['emitted'] != [rec['local']]:
+                    return f'event {k}: publish did not promptly emit exactly one sync Interest with the full vector'
+            else:
+                # not running: there may be no front-end to emit through; what is emitted is the full vector, and the
+                # publication is announced as soon as the instance runs
+                if any(v != rec['local'] for v in rec['emitted']):
+                    return f'event {k}: emitted vector is not the full local vector'
+                unannounced = not rec['emitted']
+            if rec['missing']:
+                return f'event {k}: missing-data callback fired without a received vector'
+        elif rec['ev'] in ('start', 'stop', 'x'):
+            exp = dict(before)
+            if rec['ev'] == 'start' and rec['self_seq'] >= 0:
+                exp[self_id] = rec['self_seq_before']
+            if any(exp.get(i, 0) != after.get(i, 0) for i in set(exp) | set(after)) or rec['self_seq'] != rec['self_seq_before']:
+                return f'event {k}: {rec["ev"]} changed the local vector or the own sequence number'
+            if rec['missing']:
+                return f'event {k}: missing-data callback fired without a received vector'
+            if any(v != rec['local'] for v in rec['emitted']):
+                return f'event {k}: emitted vector is not the full local vector'
+            if rec['ev'] == 'stop' and rec['emitted']:
+                return f'event {k}: sync Interest emitted by stop()'
+            if rec['ev'] == 'x' and len(rec['emitted']) != 1:
+                return f'event {k}: express_sync_interest() did not emit exactly one sync Interest'
+            if rec['ev'] == 'start':
+                if unannounced and not rec['emitted']:
+                    return f'event {k}: a publication made while not running was not announced promptly after start()'
+                unannounced = False
+                heard = None
         elif rec['ev'] == 'ss':
             if before != after or rec['self_seq'] != rec['self_seq_before']:
                 return f'event {k}: stopping and starting again changed the local vector'
@@ -504,6 +778,20 @@ def tags(case, impl):
         if e[0] == 'comp' and len(e) > 2:
             t.append('mut:' + e[2])
     t.append('len:%d' % len(case['events']))
+    for rec in impl['trace']:
+        if rec['ev'] == 'p' and not rec.get('running', True):
+            t.append('publish-while-not-running')
+    if case.get('late_start'):
+        t.append('late-start')
+    if case['seq0'] > 7 or case['seq0'] < 0:
+        t.append('resumed:' + ('neg' if case['seq0'] < 0 else 'lt2^32' if case['seq0'] < 2**32 else 'ge2^32'))
+    for k in ('me_arg', 'base_arg'):
+        if case.get(k):
+            t.append(k + ':' + next(iter(case[k])))
+    if case.get('intervals'):
+        t.append('intervals')
+    if case.get('twin'):
+        t.append('twin')
     return t
 
 
